@@ -66,6 +66,8 @@ def stages(tier, rng, only=None):
     out.append(ac.stage("reuse_other_dataset", PID, lambda: ac.reuse_other_cases(
         grids.datasets(3, 2)[::5] + [ac.random_dataset(rng, 6, 5, nmin=3) for _ in range(n_rand // 2)], BIO, SCHEMES,
         rng, flags=(0,)), _nt))
+    out.append(ac.stage("larger", PID, lambda: ac.cases([ac.larger_dataset(rng, 10, 25) for _ in range(n_rand // 8)], BIO,
+                                                        SCHEMES), _nt))
     out.append(ac.stage("threshold", PID, lambda: ac.cases([ac.random_dataset(rng, 5, 4, nmin=3) for _ in range(n_rand)],
                                                            BIO, FINE), _nt))
     if tier == "thorough":
